@@ -28,14 +28,16 @@ check('C17', 'exploration',
 SIMNOTE = ('Oracle independent of the simulator (adjacency from link end-node names, own pattern clock, documented laws); '
            'runs that do not converge are inconclusive; held = no observed event contradicted the oracle on the executions '
            'listed in the evidence file, nothing is claimed about networks the generators cannot produce.')
-check('C01', 'exploration', 'offline checker over reported result tables: per-node flow balance + independent demand clock, on seeded random and perturbed example networks',
+check('C01', 'exploration', 'offline checker over reported result tables: per-node flow balance + independent demand clock, on seeded random networks, perturbed example and test networks, and every simulation the repository's own tests make (pytest plugin wrapping run_sim)',
       'Every junction/tank/reservoir x reported step of hundreds of seeded simulations (loops, parallel links, tanks, leaks, '
       'isolation schedules, DD/PDD, pattern_start) is checked for |in-out-demand-leak| <= solver tolerance and DD demand == '
-      'base x pattern(t+pattern_start) x multiplier.', SIMNOTE, 'DESIGN.md#C01')
+      'base x pattern(t+pattern_start) x multiplier. The same oracle judges the hand-made test networks of the repository and, through a pytest '
+      'plugin, every run_sim call of a set of the repository\'s test files.', SIMNOTE, 'DESIGN.md#C01')
 check('C02', 'exploration', 'offline checker of the documented head-flow law per link type x reported status, plus evaluator sweep of pipe rows; reference pump-curve fit',
       'Every link x reported step judged by its type/status law with coefficients recomputed independently; valve rigs force '
       'every status bucket (coverage floors per bucket); pipe rows swept through the compiled evaluator for oddness, '
-      'monotonicity, continuity; in-place pump-curve re-calibration histories.', SIMNOTE, 'DESIGN.md#C02')
+      'monotonicity, continuity; in-place pump-curve re-calibration histories; the repository\'s test networks and the simulations of its own '
+      'test files (pytest plugin) are judged by the same oracle.', SIMNOTE, 'DESIGN.md#C02')
 check('C06', 'exploration', 'hook on every accepted solved step (incl. partial steps): tank volume integration against reference volume function, limit and no-discharge/no-fill checks',
       'Every pair of consecutive accepted steps x tank: V(level) changes by inflow x dt (cylinder or reference interpolation '
       'of the volume curve); level within [min,max] up to 2 s of flow; no discharge at min / fill at max.', SIMNOTE, 'DESIGN.md#C06')
@@ -50,17 +52,19 @@ check('C08', 'exploration', 'offline checker of leak demand vs Cd*A*sqrt(2gp) an
 check('C10', 'exploration', 'history oracle: concatenated results of paused/pickled/continued runs vs one uninterrupted run of an identically built model',
       'Seeded networks with tanks, controls, rules, leaks, isolation schedules; 1-3 pauses on the hydraulic grid with/without '
       'pickle, new simulator per part; index continuation rules and value/status equality to solver tolerance, with a '
-      'noise-amplification rule that separates defects (jumps) from explicit-Euler amplification of solver noise.',
+      'noise-amplification rule that separates defects (jumps) from explicit-Euler amplification of solver noise; controls and rules are also '
+      'placed right after the pause instants on rule grids that do not divide the hydraulic step.',
       SIMNOTE, 'DESIGN.md#C10')
 check('C11', 'exploration', 'to_dict snapshot contract around run_sim of both simulators + run/reset/run and equal-model (deepcopy, pickle, dict) result comparison',
       'Definition (JSON-normalised to_dict) compared before/after every WNTRSimulator and EpanetSimulator run; run 1 vs run n '
       'after reset_initial_values; original vs deepcopy/pickle/dict copies; models built through the API without a prior reset, '
-      'non-default initial statuses, odd report steps.', SIMNOTE, 'DESIGN.md#C11')
+      'non-default initial statuses, odd report steps, leaks on junctions and tanks; the dict contract is also evaluated around every run_sim call '
+      'of a set of the repository\'s own test files (pytest plugin).', SIMNOTE, 'DESIGN.md#C11')
 check('C16', 'fault_enumeration', 'fault injection at the _solver_helper hook for every solve index k x {warn, raise, backup ok, backup fails} + organic iteration/trial limits; shape and prefix oracles',
       'Clean run counts N solves (logical clock); each solve k is made to fail (all k in thorough, sampled in quick) under four '
       'regimes; returned tables must share one increasing index on the report grid with exactly one column per element and '
       'finite values, the failure must be raised or warned + error_code, and the rows reported before it must equal the '
-      'non-failing run.', 'Fault model: the solver reports SolverStatus.error at the _solver_helper boundary. ' + SIMNOTE, 'DESIGN.md#C16')
+      'non-failing run. The shape oracle also runs on every simulation of a set of the repository\'s own test files (pytest plugin).', 'Fault model: the solver reports SolverStatus.error at the _solver_helper boundary. ' + SIMNOTE, 'DESIGN.md#C16')
 
 check('C15', 'exploration', 'reference-model monitor: compiled residuals/Jacobian/indices after every set_structure of random add/remove/change histories vs dual-number evaluation of the generator\'s own expression tree; ASan+UBSan re-run of evaluator.cpp',
       'Random expression DAGs (all operators, reflected/folding constants, shared sub-expressions and Float/Param leaves across constraints, if_else, '
@@ -119,8 +123,8 @@ check('C04', 'exploration', "online trace checker: every solved instant of repor
 check('C05', 'exploration', "offline trace checker over every solved instant (report 'ALL') + hook on the control-commanded link status at save_results: every definitely-true simple control vs the reported target state, with re-derived legitimate exceptions, and a threshold-overshoot bound",
       'Fill/drain rigs with small tanks (thresholds crossed several per hydraulic step), hysteresis pairs, pressure controls, priorities, and random '
       'networks with tank/pressure controls: at every solved instant every control whose condition holds beyond the solver tolerance must be reflected by '
-      'its target (closed means reported closed; open unless check valve / pump shut-off / tank limit re-derived from the reported heads; conflicting '
-      'possibly-true controls are skipped); when a tank-level control switches its target, the level is within 2 s of tank flow of the threshold.',
+      'its target (closed means reported closed; open unless check valve / pump shut-off / tank limit re-derived from the reported heads; only a '
+      'possibly-true conflicting control of equal or higher priority excuses - on a valve a setting control commands Active); when a tank-level control switches its target, the level is within 2 s of tank flow of the threshold.',
       'Margins: 1.524e-4 m + 2 s of tank flow. Non-converging runs are inconclusive.', 'DESIGN.md#C05')
 
 check('C12', 'exploration', 'round-trip oracle on the real InpFile writer/reader: canonical dictionary diff m0 ~ m1 per path with field-precision tolerances, m1 ~ m2 and per-section text comparison of the two INP files, for 10 flow units x 2 INP versions',
